@@ -93,6 +93,16 @@ def build_case(rng, root):
     ninc = rng.choice((0, 1, 1, 2, 2, 3, 5))
     nlines = rng.randint(0, 8)
     own = [carts.one_line(rng) for _ in range(nlines)]
+    if nlines and rng.random() < 0.35:
+        # lines that mention #include without being a directive (a commented-out include, a string, a trailing remark): ordinary lines
+        k = rng.randrange(nlines)
+        own[k] = rng.choice((b'--#include devtools.lua\n', b'-- #include devtools.lua\n', b'x=1 -- #include devtools.lua\n',
+                             b's="#include devtools.lua"\n', b'--[[#include devtools.lua]]\n', b'//#include devtools.lua\n',
+                             b'y=2 #include_me=3\n' if False else b'-- see #include devtools.lua:1\n'))
+        feats.add('line_mentioning_include')
+        if rng.random() < 0.5:
+            put(os.path.join(cartdir, 'devtools.lua'), b'debug_overlay=true\n')
+            feats.add('mentioned_file_exists')
     # positions of include lines among own lines
     slots = sorted(rng.choice(range(nlines + 1)) for _ in range(ninc))
     if ninc and rng.random() < 0.3:
@@ -339,7 +349,7 @@ def gates(m, tier):
               'tab_selector_beyond', 'include_first_line', 'include_last_line', 'adjacent_includes', 'several_includes', 'nested_include_literal',
               'directive_whitespace_variant', 'missing_target', 'png_raw', 'png_compressed', 'includes_0', 'same_target_twice', 'cart_inside_carts_folder', 'name_with_embedded_extension', 'include_inside_block_comment',
               'cart_opened_through_symlinked_directory', 'lua_target_with_high_bytes', 'tab_selector_two_digits', 'cart_opened_as_bare_name_in_cwd',
-              'cart_opened_as_dot_slash_in_cwd', 'cart_opened_as_relative_from_parent'):
+              'cart_opened_as_dot_slash_in_cwd', 'cart_opened_as_relative_from_parent', 'line_mentioning_include', 'mentioned_file_exists'):
         if f.get(k, 0) < 5:
             missed.append('%s seen %d times' % (k, f.get(k, 0)))
     if mon.get('splices_compared', 0) < 200:
